@@ -811,6 +811,7 @@ class Blockwise(ArrayExpr):
         # Map output block ranges to input slices
         args = self.args
         new_args = []
+        label_chunks = {}  # chunks of the sliced operands, per index label
 
         for i in range(0, len(args), 2):
             arg = args[i]
@@ -837,6 +838,11 @@ class Blockwise(ArrayExpr):
                         elif 0 in arg.chunks[dim_idx]:
                             # Slicing the operand to whole blocks does not keep
                             # exactly those blocks when some have zero width.
+                            return None
+                        elif label_chunks.setdefault(in_ind, arg.chunks[dim_idx]) != arg.chunks[dim_idx]:
+                            # Operands that are still to be aligned (equal block
+                            # counts, other boundaries): one block range does not
+                            # select the same positions of each.
                             return None
                         else:
                             first, last = br
